@@ -504,7 +504,25 @@ class Rig:
     def disk_sequences(self, folder):
         """Read .mh_sequences the way an MH tool would (stdlib parser)."""
         mh = mailbox.MH(str(self.maildir / folder), create=False)
-        return {k: set(v) for k, v in mh.get_sequences().items()}, sorted(int(k) for k in mh.keys())
+        mh.get_sequences()  # must be parseable by the stdlib reader (FormatError otherwise)
+        # ... but the stdlib reader silently drops numbers that are not files,
+        # which an MH tool reading the file does not: parse the raw text too.
+        seqs = {}
+        p = self.maildir / folder / ".mh_sequences"
+        if p.exists():
+            for line in p.read_text(encoding="latin-1").splitlines():
+                if not line.strip():
+                    continue
+                name, _, contents = line.partition(":")
+                keys = set()
+                for spec in contents.split():
+                    if spec.isdigit():
+                        keys.add(int(spec))
+                    else:
+                        a, _, b = spec.partition("-")
+                        keys.update(range(int(a), int(b) + 1))
+                seqs[name.strip()] = keys
+        return seqs, sorted(int(k) for k in mh.keys())
 
     def mailbox_obj(self, name):
         return self.server.active_mailboxes.get(name)
